@@ -571,7 +571,7 @@ func runStress(run *ev.Run, sc stressCase, filter string) {
 			if g.State == "running" {
 				continue
 			}
-			if !parkedState(g.State) {
+			if !parkedG(g) {
 				quiet = false
 				break
 			}
@@ -586,7 +586,7 @@ func runStress(run *ev.Run, sc stressCase, filter string) {
 				gs2 := goroutineDump()
 				still := len(gs2) == len(gs)
 				for _, g := range gs2 {
-					if g.State != "running" && !parkedState(g.State) {
+					if g.State != "running" && !parkedG(g) {
 						still = false
 					}
 				}
